@@ -1265,7 +1265,7 @@ func TestVerifC01(t *testing.T) {
 	r := &vRng{s: seed*0x1000193 + 0xC01}
 	defer vSetExtra(nil)
 
-	nSer, nPar, nMut := 700, 260, 2500
+	nSer, nPar, nMut := 2500, 260, 2500
 	if thorough {
 		nSer, nPar, nMut = 15000, 2500, 80000
 	}
